@@ -288,7 +288,11 @@ def comp_path(c):
 
 def out_path(md, oid):
     o = md['outs'][oid]
-    return comp_path(md['comps'][o['comp']]) + '.' + o['name']
+    c = md['comps'][o['comp']]
+    if c['kind'] == 'ivc' and md.get('split_ivc'):
+        # one IndepVarComp per independent variable (components upstream of the design variables then exist: C24)
+        return 'ivc_%s.%s' % (o['name'], o['name'])
+    return comp_path(c) + '.' + o['name']
 
 
 def in_path(md, iid):
@@ -354,7 +358,7 @@ def build(md, cfg=None, setup=True):
     import openmdao.api as om
     Aff, MF, Imp, Bil, MFBil = classes()
     cfg = cfg or {}
-    p = om.Problem()
+    p = om.Problem(**cfg.get('problem_opts', {}))
     groups = {'': p.model}
 
     def group(gp):
@@ -367,7 +371,14 @@ def build(md, cfg=None, setup=True):
     for cid in order:
         c = md['comps'][cid]
         g = group(c['group'])
-        if c['kind'] == 'ivc':
+        if c['kind'] == 'ivc' and md.get('split_ivc'):
+            for oid in c['outs']:
+                o = md['outs'][oid]
+                kw = {'units': o['units']} if o['units'] else {}
+                one = om.IndepVarComp()
+                one.add_output(o['name'], val=np.array([fl(v) for v in o['val']]).reshape(o['shape']), **kw)
+                g.add_subsystem('ivc_%s' % o['name'], one)
+        elif c['kind'] == 'ivc':
             ivc = om.IndepVarComp()
             for oid in c['outs']:
                 o = md['outs'][oid]
@@ -458,6 +469,8 @@ def build(md, cfg=None, setup=True):
         p.driver = om.ScipyOptimizeDriver(optimizer='SLSQP')
         p.driver.declare_coloring(show_summary=False, min_improve_pct=0., direct=(cfg['coloring'] != 'subst'),
                                   num_full_jacs=2)
+    if cfg.get('driver') is not None:
+        p.driver = cfg['driver']
     if setup:
         p.setup(mode=cfg.get('mode', 'auto'), force_alloc_complex=bool(cfg.get('force_alloc_complex', False)))
     return p
